@@ -190,7 +190,46 @@ func (x *Exec) externCall2(st *State, c *ssa.Call, f *ssa.Function, name string,
 		r := x.freshString(st, c.Type(), "html.EscapeString")
 		st.assume(x.specBool("Escaped", x.resolved(st, r), intSV(IntC(0), types.Typ[types.Int]), intSV(r.Len, types.Typ[types.Int])))
 		return r, true
-	case "html.UnescapeString", "strings.ToLower", "strings.Repeat", "strings.TrimSpace", "strings.Trim", "strings.TrimLeft", "strings.TrimRight":
+	case "strings.Trim", "bytes.Trim", "strings.TrimSpace", "bytes.TrimSpace", "bytes.TrimLeft", "strings.TrimLeft", "strings.TrimRight", "bytes.TrimRight":
+		// the result is a sub-sequence s[a:b) of the argument (same backing store); the characters removed
+		// belong to the cutset; for an ASCII cutset the ends of a non-empty result do not
+		s0 := args[0]
+		a := Var(x.freshName("trim.a"), SInt)
+		b := Var(x.freshName("trim.b"), SInt)
+		st.assume(And(Le(IntC(0), a), Le(a, b), Le(b, s0.Len)))
+		left := !strings.HasSuffix(name, "Right")
+		right := !strings.HasSuffix(name, "Left")
+		if !left {
+			st.assume(Eq(a, IntC(0)))
+		}
+		if !right {
+			st.assume(Eq(b, s0.Len))
+		}
+		res := SV{K: KSeq, Ty: c.Type(), Id: s0.Id, Arr: s0.Arr, Off: Add(s0.Off, a), Len: Sub(b, a), Cap: Sub(b, a)}
+		if !isStringType(c.Type()) && s0.Cap != nil {
+			res.Cap = Sub(s0.Cap, a)
+		}
+		if !strings.HasSuffix(name, "Space") {
+			if set, ok := x.prog.constOf(args[1]); ok {
+				k := Var(x.freshName("k!tr"), SInt)
+				st.assume(Forall([]*Term{k}, Implies(And(Le(IntC(0), k), Lt(k, s0.Len), Or(Lt(k, a), Ge(k, b))), x.inCharSet(x.byteAt(st, s0, k), set))))
+				if left {
+					st.assume(Implies(Lt(a, b), Not(x.inCharSet(x.byteAt(st, s0, a), set))))
+				}
+				if right {
+					st.assume(Implies(Lt(a, b), Not(x.inCharSet(x.byteAt(st, s0, Sub(b, IntC(1))), set))))
+				}
+			}
+		}
+		return res, true
+	case "golang.org/x/text/cases.Fold":
+		return x.freshOf(st, c.Type(), "cases.Fold"), true
+	case "(golang.org/x/text/cases.Caser).String":
+		// Unicode case folding: a pure function of the argument's contents (assumed dependency)
+		r := x.freshString(st, c.Type(), "casefold")
+		st.assume(Eq(x.seqVal(st.heap, r), App("ext.casefold", SInt, x.seqVal(st.heap, args[1]))))
+		return r, true
+	case "html.UnescapeString", "strings.ToLower", "strings.Repeat":
 		// a string about which nothing is assumed (trim results are sub-strings, but no caller under contract needs that yet)
 		return x.freshString(st, c.Type(), name), true
 	case "strings.Fields":
@@ -214,6 +253,26 @@ func (x *Exec) externCall2(st *State, c *ssa.Call, f *ssa.Function, name string,
 		st.assume(Forall([]*Term{kk}, Implies(And(Le(IntC(0), kk), Lt(kk, n)), Or(And(Le(IntC('0'), ch), Le(ch, IntC('9'))), And(Eq(kk, IntC(0)), Eq(ch, IntC('-')))))))
 		t := SV{K: KSeq, Arr: arr, Off: IntC(0), Len: n, Cap: n}
 		return x.appendCore(st, dst, t, types.Typ[types.Byte], "E:byte", c.Type()), true
+	case "strings.LastIndexFunc", "strings.IndexFunc", "strings.IndexAny", "strings.LastIndexByte", "strings.LastIndex", "strings.Index":
+		// an index into the first argument, or -1 (which one is not modelled)
+		r := x.freshOf(st, types.Typ[types.Int], name)
+		st.assume(And(Le(IntC(-1), r.T), Lt(r.T, args[0].Len)))
+		return r, true
+	case "strings.HasPrefix", "bytes.HasPrefix", "strings.HasSuffix", "bytes.HasSuffix":
+		pre, ok := x.prog.constOf(args[1])
+		if !ok {
+			x.fail("%s with a non-constant affix", name)
+		}
+		s0 := args[0]
+		cs := []*Term{Ge(s0.Len, IntC(int64(len(pre))))}
+		for i := 0; i < len(pre); i++ {
+			idx := IntC(int64(i))
+			if strings.HasSuffix(name, "Suffix") {
+				idx = Add(Sub(s0.Len, IntC(int64(len(pre)))), IntC(int64(i)))
+			}
+			cs = append(cs, Eq(x.byteAt(st, s0, idx), IntC(int64(pre[i]))))
+		}
+		return boolSV(And(cs...)), true
 	case "fmt.Errorf", "errors.New":
 		r := x.allocRef(st)
 		return refSV(r, c.Type()), true
